@@ -27,7 +27,7 @@ from common import bytes_lit, zlit
 ID = 'C06'
 TECHNIQUE = ('Coq proof over all prior states, batches and crash points of an executable model of the storing code + '
              'correspondence check of the recorded raw file-system operations of the real code against the model')
-LEVEL_TEXT = ('Theorems over Crash.v (26 in P_C06.v): for every directory state, request and crash state (every prefix of the '
+LEVEL_TEXT = ('Theorems over Crash.v (43 in P_C06.v; also: seed progress file and legend cache as instances of write_atomic, batches spanning several bundle files, and complete store calls on a cache directory = initialisation + in-place phase in one theorem): for every directory state, request and crash state (every prefix of the '
               'operation list and every byte-granular tear of a temp-file write) of write_atomic / FileCache._store / '
               '_store_single_color_tile (repaired) the stored address reads old, complete new, or missing only if it was missing or a symlink replaced by _store, and '
               'addresses the operations do not name are unchanged; for v1/v2 bundles: every raw write sequence that satisfies the '
@@ -586,10 +586,11 @@ def describe_r(r):
 
 # ------------------------------------------------------------------------------------------- write_atomic users
 
-ATOMIC_CASE_TYPE = 'list (path * node) * path * list Z * list Z * list fsop * list (nat * option nat * rres)'
+ATOMIC_CASE_TYPE = 'Z * list (path * node) * path * list Z * list Z * list fsop * list (nat * option nat * rres)'
 ATOMIC_CHECKER = (
-    "fun c => let '(pre, p, sfx, d, ops, obs) := c in let s := fs_of pre in "
-    "list_eqb fsop_eqb (drop_empty (fst (write_atomic_ops s p sfx d))) ops && negb (is_tmp_name p) && "
+    "fun c => let '(kind, pre, p, sfx, d, ops, obs) := c in let s := fs_of pre in "
+    "list_eqb fsop_eqb (drop_empty (if kind =? 0 then legend_store_ops s p sfx d else progress_write_ops s p sfx d)) ops && "
+    "negb (is_tmp_name p) && "
     "is_tmp_name (tmp_of p sfx) && "
     "forallb (fun o => let '(k, cut, r) := o in rres_eqb (read_path (crash_state_at s ops k cut) p) r) obs")
 
@@ -689,7 +690,8 @@ def scen_atomic(ctx, kind, nsteps, out, perms=False):
             ctx.case(('atomic', kind, tuple(o[0] for o in canon), old[0], collided), old[0] != 'missing',
                      {'writer': kind, 'ops': [describe_op(o) for o in canon], 'crash_states_read': walk.n})
             ctx.count('atomic:crash-states', walk.n)
-            term = '(%s, %s, %s, %s, %s, %s)' % (
+            term = '(%d, %s, %s, %s, %s, %s, %s)' % (
+                0 if kind == 'legend' else 1,
                 '[' + '; '.join('(%s, %s)' % (plit(p), node_lit(n)) for p, n in sorted(pre.items())) + ']',
                 plit(rel), bytes_lit(sfx.encode()), bytes_lit(data),
                 '[' + '; '.join(fsop_lit(o) for o in canon) + ']',
@@ -850,6 +852,29 @@ Definition v1_check (c : ''' + V1_CASE_TYPE + ''') : bool :=
      list_eqb rres_eqb (map (v1_read (v1_state_at s0 ops k cut)) slots) rs) obs.
 '''
 
+DIR_CASE_TYPE = 'Z * bool * bool * path * path * list Z * list Z * Z * Z * list (Z * path * path)'
+DIR_DEFS = '''
+Definition bop_shape (o : bop) : Z * path * path :=
+  match o with
+  | BCreate t => (0, t, [])
+  | BPut t _ => (1, t, [])
+  | BRename t p => (2, t, p)
+  | BUnlink t => (3, t, [])
+  | BW p _ => (4, p, [])
+  | BWD p _ _ => (4, p, [])
+  | BWI p _ _ => (5, p, [])
+  end.
+Definition shape_eqb (a b : Z * path * path) : bool :=
+  let '(k, p, q) := a in let '(k2, p2, q2) := b in (k =? k2) && path_eqb p p2 && path_eqb q q2.
+(* the operation list of a complete store call with an empty batch = its initialisation part *)
+Definition dir_check (c : ''' + DIR_CASE_TYPE + ''') : bool :=
+  let '(version, de, ie, pd, pi, sfx1, sfx2, bc, br, shapes) := c in
+  let s : bdir := fun q => if path_eqb q pd then (if de then Some fempty else None)
+                           else if path_eqb q pi then (if ie then Some fempty else None) else None in
+  let ops := if version =? 2 then v2_dir_store_ops s pd sfx1 [] else v1_dir_store_ops s pd pi sfx1 sfx2 bc br [] in
+  list_eqb shape_eqb (map bop_shape ops) shapes.
+'''
+
 INIT_CASE_TYPE = 'Z * Z * Z * Z * list (Z * Z)'
 INIT_CHECKER = (
     "fun c => let '(which, bc, br, len, samples) := c in "
@@ -881,6 +906,9 @@ def scen_compact(ctx, version, nsteps, out, big=False, perms=False):
     idx_rel = bname + '.bundlx'
     cls = CompactCacheV1 if version == 1 else CompactCacheV2
     hist = []          # raw in-place writes on the bundle since its initialisation
+    f_bname = os.path.join('L03', 'R%04xC%04x' % (by, bx + 128))
+    f_dat_rel, f_idx_rel = f_bname + '.bundle', f_bname + '.bundlx'
+    hist_f = []        # the same for the second bundle file (batches that span two bundle files)
     tag = 'v%d' % version
     try:
         pk = dict(directory_permissions='755', file_permissions='644') if perms else {}
@@ -900,6 +928,11 @@ def scen_compact(ctx, version, nsteps, out, big=False, perms=False):
             if len(batch) > 1 and any(c == foreign for c, _ in batch) is False and rng.random() < 0.2:
                 batch[0] = (batch[-1][0], batch[0][1])       # the same address twice in one batch
             directed_crash = False
+            if not big and step == 1:
+                # directed: a batch that spans two bundle files (the second one not yet initialised)
+                batch = [(coords[2], bytes(rng.randrange(256) for _ in range(6))),
+                         (foreign, bytes(rng.randrange(256) for _ in range(4))),
+                         (coords[3], bytes(rng.randrange(256) for _ in range(2)))]
             if not big and step == nsteps - 3:
                 # directed: two addresses get content ...
                 batch = [(coords[0], bytes(rng.randrange(256) for _ in range(3))),
@@ -919,6 +952,7 @@ def scen_compact(ctx, version, nsteps, out, big=False, perms=False):
             env.fstrace.copy_tree(cdir, pre_dir)
             old = read_compact(version, cdir, coords)
             tiles = [Tile(c, ImageSource(io.BytesIO(d))) for c, d in batch]
+            env.rnd.used = []
             if len(tiles) == 1 and rng.random() < 0.5:
                 raw, exc = env.traced(lambda: cache.store_tile(tiles[0]))
             else:
@@ -965,8 +999,8 @@ def scen_compact(ctx, version, nsteps, out, big=False, perms=False):
 
             def is_index_write(op):
                 if version == 1:
-                    return op[1] == idx_rel
-                return op[1] == dat_rel and 64 <= op[2] < 131136
+                    return op[1].endswith('.bundlx')
+                return op[1].endswith('.bundle') and 64 <= op[2] < 131136
 
             index_tear = {'states': 0, 'bad': 0}
 
@@ -985,6 +1019,8 @@ def scen_compact(ctx, version, nsteps, out, big=False, perms=False):
             other_after = [o for o in raw[first_inplace:] if not (o[0] == 'write' and o[1] in (dat_rel, idx_rel))
                            and o[0] not in ('mkdir', 'chmod')]
             single_bundle = not other_after and all(c != foreign for c, _ in batch)
+            f_ops = [(('D' if o[1] == f_dat_rel else 'I'), o[2], o[3]) for o in raw
+                     if o[0] == 'write' and o[1] in (f_dat_rel, f_idx_rel)]
             for i, c, d in walk.states(raw, cuts_for):
                 rs = read_compact(version, d, coords)
                 measuring = c is not None and is_index_write(raw[i])
@@ -1031,60 +1067,90 @@ def scen_compact(ctx, version, nsteps, out, big=False, perms=False):
                         which, bx, by, len(o[3]), '; '.join('(%d, %d)' % (p, o[3][p]) for p in pos)))
                     out['init_descr'].append({'writer': rep['writer'], 'file': o[1], 'length': len(o[3])})
             init_shape = [o[0] for o in raw[:first_inplace] if o[0] not in ('mkdir', 'chmod')]
+            if single_bundle and exc is None:
+                # the initialisation part of the complete store call against v?_dir_store_ops (order: exclusive temp
+                # name, content, rename; v1: data file first, then index file)
+                cinit, _, _ = canon_ops(raw[:first_inplace])
+                kinds = {'create': 0, 'write': 1, 'rename': 2, 'unlink': 3}
+                shapes = ['(%d, %s, %s)' % (kinds.get(o[0], 9), plit(o[1]), plit(o[2]) if o[0] == 'rename' else '[]')
+                          for o in cinit]
+                used = [str(u) for u in env.rnd.used] + ['0', '0']
+                de, ie = dat_rel in pre_snap, idx_rel in pre_snap
+                sfx1, sfx2 = (used[0], used[1]) if not de else ('0', used[0])
+                out['dir_terms'].append('(%d, %s, %s, %s, %s, %s, %s, %d, %d, [%s])' % (
+                    version, 'true' if de else 'false', 'true' if ie else 'false', plit(dat_rel), plit(idx_rel),
+                    bytes_lit(sfx1.encode()), bytes_lit(sfx2.encode()), bx, by, '; '.join(shapes)))
+                out['dir_descr'].append(dict(rep, init_ops=[describe_op(o) for o in cinit]))
             if single_bundle and init_shape not in ([], ['create', 'write', 'rename'], ['create', 'write', 'rename'] * 2):
                 ctx.problem('correspondence', '%s: initialisation is not write_atomic shaped: %r' % (tag, init_shape), rep)
             # ---- correspondence case for the in-place part
             # shape of the raw in-place writes (cheap pre-check of what raw_ok accepts; anything else is reported here
             # and not handed to Coq, whose readers may be walked through arbitrary garbage by such a trace)
-            bad_shape = None
-            L = len(pre_snap[dat_rel][1]) if dat_rel in pre_snap else (131136 if version == 2 else 65596)
-            for kind, off, dd in bundle_ops:
-                n = len(dd)
-                if kind == 'D' and off == L:
-                    L += n
-                elif kind == 'D' and off + n <= (64 if version == 2 else 60):
-                    pass
-                elif version == 2 and kind == 'D' and 64 <= off and off + n <= 131136 and (off - 64) % 8 == 0 and n == 8:
-                    pass
-                elif version == 1 and kind == 'I' and 16 <= off and off + n <= 81936 and (off - 16) % 5 == 0 and n % 5 == 0:
-                    pass
-                else:
-                    bad_shape = (kind, off, n, L)
-                    break
+            def shape_bad(ops, dat):
+                L = len(pre_snap[dat][1]) if dat in pre_snap else (131136 if version == 2 else 65596)
+                for kind, off, dd in ops:
+                    n = len(dd)
+                    if kind == 'D' and off == L:
+                        L += n
+                    elif kind == 'D' and off + n <= (64 if version == 2 else 60):
+                        pass
+                    elif version == 2 and kind == 'D' and 64 <= off and off + n <= 131136 and (off - 64) % 8 == 0 and n == 8:
+                        pass
+                    elif version == 1 and kind == 'I' and 16 <= off and off + n <= 81936 and (off - 16) % 5 == 0 and n % 5 == 0:
+                        pass
+                    else:
+                        return (kind, off, n, L)
+                return None
+
+            def coq_term(h, cbatch, ops, slots, obs_list, ox, oy):
+                mb = '[' + '; '.join('(%d, %s)' % (slot_of(version, c), bytes_lit(d)) for c, d in cbatch) + ']'
+                obs_l = '[' + '; '.join('(%s, %s, [%s])' % (natlit(k), cutlit(cut), '; '.join(rlit(r) for r in rs))
+                                        for k, cut, rs in obs_list) + ']'
+                if version == 2:
+                    return '(%s, %s, %s, %s, %s)' % (
+                        '[' + '; '.join(bw_lit(w) for w in h) + ']', mb,
+                        '[' + '; '.join(bw_lit((o[1], o[2])) for o in ops) + ']',
+                        '[' + '; '.join(str(x) for x in slots) + ']', obs_l)
+                return '(%d, %d, %s, %s, %s, %s, %s)' % (
+                    ox, oy, '[' + '; '.join(v1op_lit(w) for w in h) + ']', mb,
+                    '[' + '; '.join(v1op_lit(o) for o in ops) + ']',
+                    '[' + '; '.join(str(x) for x in slots) + ']', obs_l)
+
+            bad_shape = shape_bad(bundle_ops, dat_rel) or shape_bad(f_ops, f_dat_rel)
+            volume = sum(len(o[2]) for o in bundle_ops + f_ops) + sum(len(w[-1]) for w in hist + hist_f)
             if bad_shape is not None:
                 ctx.problem('correspondence', '%s: raw write %r (file, offset, length, file length) is neither an append nor a '
                             'header rewrite nor whole index entries' % (tag, bad_shape), rep)
                 tainted = True
             elif tainted:
                 ctx.count('%s:store-after-ill-shaped-trace(oracle only)' % tag)
-            elif bundle_ops and sum(len(o[2]) for o in bundle_ops) + sum(len(w[-1]) for w in hist) > 40000:
+            elif (bundle_ops or f_ops) and volume > 40000:
                 # not the shape of any modelled in-place write (records of this stream are below 9 KB): say so instead
                 # of handing Coq a literal of that size
-                ctx.problem('correspondence', '%s: in-place raw writes of %d bytes (this store and its history) on an existing bundle file' % (
-                    tag, sum(len(o[2]) for o in bundle_ops) + sum(len(w[-1]) for w in hist)), rep)
+                ctx.problem('correspondence', '%s: in-place raw writes of %d bytes (this store and its history) on existing '
+                            'bundle files' % (tag, volume), rep)
             elif single_bundle and exc is None and bundle_ops:
-                slots = [slot_of(version, c) for c in coords[:ncoq]]
-                mb = '[' + '; '.join('(%d, %s)' % (slot_of(version, c), bytes_lit(d)) for c, d in batch) + ']'
-                obs_l = '[' + '; '.join('(%s, %s, [%s])' % (natlit(k), cutlit(cut), '; '.join(rlit(r) for r in rs))
-                                        for k, cut, rs in obs) + ']'
-                if version == 2:
-                    term = '(%s, %s, %s, %s, %s)' % (
-                        '[' + '; '.join(bw_lit(w) for w in hist) + ']', mb,
-                        '[' + '; '.join(bw_lit((o[1], o[2])) for o in bundle_ops) + ']',
-                        '[' + '; '.join(str(s) for s in slots) + ']', obs_l)
-                else:
-                    term = '(%d, %d, %s, %s, %s, %s, %s)' % (
-                        bx, by, '[' + '; '.join(v1op_lit(w) for w in hist) + ']', mb,
-                        '[' + '; '.join(v1op_lit(o) for o in bundle_ops) + ']',
-                        '[' + '; '.join(str(s) for s in slots) + ']', obs_l)
-                out[tag + '_terms'].append(term)
+                out[tag + '_terms'].append(coq_term(hist, batch, bundle_ops, [slot_of(version, c) for c in coords[:ncoq]],
+                                                    obs, bx, by))
                 out[tag + '_descr'].append(rep)
-            elif bundle_ops and not single_bundle:
-                ctx.count('%s:multi-bundle-batch(oracle only)' % tag)
+            elif exc is None and (bundle_ops or f_ops):
+                # a batch that spans two bundle files (one store_tile per tile): each file's own subsequence of the raw
+                # writes must satisfy raw_ok for the tiles of that file and equal the model's store of those tiles
+                # (the hypotheses of the multi-bundle theorems); the interleaved crash states are read by the oracle
+                ctx.count('%s:multi-bundle-batch(per-file correspondence)' % tag)
+                if bundle_ops:
+                    out[tag + '_terms'].append(coq_term(hist, [(c, d) for c, d in batch if c != foreign], bundle_ops,
+                                                        [slot_of(version, c) for c in coords[:ncoq]], [], bx, by))
+                    out[tag + '_descr'].append(dict(rep, projection=bname))
+                if f_ops:
+                    out[tag + '_terms'].append(coq_term(hist_f, [(c, d) for c, d in batch if c == foreign], f_ops,
+                                                        [slot_of(version, foreign)], [], bx + 128, by))
+                    out[tag + '_descr'].append(dict(rep, projection=f_bname))
+            hist_f.extend((o[1], o[2]) if version == 2 else o for o in f_ops)
             # history of the bundle under observation; sometimes the history continues from a crash state of this
             # store (a legitimate prior cache content for the next store), preferably right after an index write
             applied = list(bundle_ops)
-            if raw and (directed_crash or (rng.random() < 0.35 and not (not big and step >= nsteps - 3))):
+            if raw and not f_ops and (directed_crash or (rng.random() < 0.35 and not (not big and step >= nsteps - 3))):
                 k = rng.randrange(len(raw) + 1)
                 idxs = [i + 1 for i, o in enumerate(raw) if o[0] == 'write' and o[1] in (dat_rel, idx_rel) and is_index_write(o)]
                 if idxs and (directed_crash or rng.random() < 0.5):
@@ -1168,7 +1234,7 @@ def corpus_regular_then_link(ctx, w):
 
 def run(ctx):
     out = {k: [] for k in ('file_terms', 'file_descr', 'atomic_terms', 'atomic_descr', 'v1_terms', 'v1_descr',
-                           'v2_terms', 'v2_descr', 'init_terms', 'init_descr')}
+                           'v2_terms', 'v2_descr', 'init_terms', 'init_descr', 'dir_terms', 'dir_descr')}
     import time
     t0 = time.time()
     marks = []
@@ -1201,7 +1267,7 @@ def run(ctx):
     mark('atomic-scenarios')
     for version in (2, 1):
         for rep in range(ctx.n(3, 12)):
-            guarded('compact-v%d/%d' % (version, rep), scen_compact, ctx, version, ctx.n(4, 6), out,
+            guarded('compact-v%d/%d' % (version, rep), scen_compact, ctx, version, ctx.n(5, 7), out,
                     big=(rep == 0 and (version == 2 or not q)), perms=(rep % 2 == 1))
         mark('compact-v%d-scenarios' % version)
     ctx.corr_check('file_store', 'Bytes Crash', FILE_CASE_TYPE, out['file_terms'], FILE_CHECKER,
@@ -1210,6 +1276,8 @@ def run(ctx):
                    lambda i: out['atomic_descr'][i], shard=10)
     ctx.corr_check('bundle_init', 'Bytes Crash', INIT_CASE_TYPE, out['init_terms'], INIT_CHECKER,
                    lambda i: out['init_descr'][i], shard=8)
+    ctx.corr_check('bundle_dir_init', 'Bytes Crash', DIR_CASE_TYPE, out['dir_terms'], 'dir_check',
+                   lambda i: out['dir_descr'][i], shard=40, defs=DIR_DEFS)
     mark('coq-file-atomic-init')
     ctx.corr_check('bundle_v2', 'Bytes Crash', V2_CASE_TYPE, out['v2_terms'], 'v2_check',
                    lambda i: out['v2_descr'][i], shard=1, defs=V2_DEFS)
